@@ -75,7 +75,7 @@ def l1_oracle(pid, methods, impl, run, desc):
             if pid in ("C09", "C07") and okm is not None and okm.on == "success":
                 mode = mode_name(okm.data)
                 parts = got_ok.split(":")
-                if len(parts) >= 3 and parts[2] != mode:
+                if len(parts) >= 3 and parts[0] == "success" and parts[2] != mode:
                     run.oracle_fail("success arm of %s extracts data in mode `%s`, method %s declares `%s`" % (rid, parts[2], okm.name, mode), desc)
         if pid == "C08":
             b = d.get("reply %s builder" % rid, "")
